@@ -28,9 +28,10 @@ func init() {
 	})
 	core.Register(&core.Check{
 		ID: "C17", Level: "exploration",
-		Rule:        "sequential histories dominated by metadata saves/deletes on accounts and transactions, mixed with transactions that set metadata (request metadata, account metadata at creation, script set_tx_meta / set_account_meta); current metadata of every account and transaction is compared with a last-write-wins reference after every committed write. Distinct = sequence of (op shape, outcome class); non-trivial = >=3 committed metadata operations",
-		Assumptions: []string{seqAssume, "point-in-time metadata reads (*_METADATA_HISTORY) are decided by SQL triggers and joins and are not observed"},
+		Rule:        "sequential histories dominated by metadata saves/deletes on accounts and transactions, mixed with transactions that set metadata (request metadata, account metadata at creation, script set_tx_meta / set_account_meta); current metadata of every account and transaction is compared with a last-write-wins reference after every committed write. Distinct = sequence of (op shape, outcome class); non-trivial = >=3 committed metadata operations. History gates: 6 point-in-time probes (list/get/count on transactions and accounts) x 48 feature sets through the real storage/ledger store over a recording SQL driver; distinct = (tx-history value, account-history value, probe), non-trivial = the two history features differ",
+		Assumptions: []string{seqAssume, "the CONTENT of point-in-time metadata reads is decided by SQL triggers and joins and is not observed; which table a point-in-time read is routed to (history table iff the resource's *_METADATA_HISTORY feature is SYNC) is observed on the SQL emitted by the real store under all 48 feature combinations"},
 		Run: func(r *core.Run) {
+			runC17HistoryGates(r)
 			runSeq(r, seqConfig{Prop: "C17", Histories: [2]int{200, 4000}, OpsPer: [2]int{35, 60},
 				Mutate: func(op *sim.Op, rng *rand.Rand, st *sim.GenState) {
 					if rng.Intn(100) < 35 {
